@@ -49,10 +49,15 @@ def fault_stage(run, pid, tier, seed, results, judge, identity, extra_identities
         if sc.get("phases") or not obs.get("requests") or any(ph["class"] for s_ in sc["sets"] for ph in s_["phases"]):
             continue   # scenarios with delegated phases are not part of this stage
         for i, q in enumerate(obs["requests"]):
-            for kind in ("err", "lost"):
+            for kind in pc.FAULT_KINDS:
+                if kind == "conflict" and " dry " in q + " ":
+                    # DryRun.Check reports a 409 of the dry run as a preflight VIOLATION (not an error), and teardown
+                    # treats a violating object as nothing to clean up (DESIGN.md section 9, explicit disjunct of C04):
+                    # that case is judged with the object marked as rejected by the dry run (C11's dry-run fault stage)
+                    continue
                 cands.append((sc, i, kind, q.split()[0] in ("get", "list")))
     rng.shuffle(cands)
-    n = 400 if tier == "quick" else 5000
+    n = 600 if tier == "quick" else 7000
     reads = [c for c in cands if c[3]][: n // 2]
     writes = [c for c in cands if not c[3]][: n - len(reads)]
     scs = [dict(sc, faults={str(i): kind}) for sc, i, kind, _ in reads + writes]
@@ -73,7 +78,7 @@ def fault_stage(run, pid, tier, seed, results, judge, identity, extra_identities
                 if m.get("fault") == "lost":
                     e = dict(e, member=dict(m, res="ok" if m["post"] is not None or m["verb"] == "delete" else "notfound"))
             elif e.get("err") == "InjectedFault":
-                if kind == "err":
+                if kind != "lost":
                     continue
                 e = dict(e, ok=True, err="")
             evs.append(e)
